@@ -213,6 +213,7 @@ pub fn run(thorough: bool) {
         }
     }
     rep.set("evaluations", json!(total_cmp));
+    crate::props::engine_s::run_engine_s(&mut rep, thorough, "C18");
     rep.set("distinct_nontrivial", json!(outcomes.len()));
     rep.set("configurations", json!(cfg_stats));
     rep.set("exhaustive", json!(true));
